@@ -15,7 +15,7 @@ RULE = (
     "group structures: 1-3 county groups over the state patterns (A), (A,A), (A,B), (A,A,A), (A,A,B), each with a calibration-unit count from "
     "{0,1,9,10,11} (quick: {0,9,10} for three groups) and outstanding units present/absent (at least one group has them), plus a filler group; the "
     "generator computes which reporting positions the seeded shuffle sends to calibration and assigns groups to positions to realise the counts; one real "
-    "gaussian get_estimates per structure (and for six structures with the scale parameter beta in {2, 0.5}) with aggregates [postal_code, county_fips] and alphas {0.7, 0.9}. Oracle per group with outstanding units: exactly "
+    "gaussian get_estimates per structure (and for six structures with the scale parameter beta in {2, 0.5}, and once more with turnout requested after another estimand on the same model object) with aggregates [postal_code, county_fips] and alphas {0.7, 0.9}. Oracle per group with outstanding units: exactly "
     "one finite interval; calibration set chosen by the statement's rule (own if >= min(10, n_cal), else state if that has >= threshold, else all); bounds "
     "= summed unadjusted unit bounds -/+ normal quantile at (3+alpha)/4 of (mu*sum w, sigma*sqrt(sum w^2 + inflate*(sum w)^2)), floored at partial counts, "
     "plus counted votes, rounded (+-1 vote). non-trivial = some group falls back to its parent"
@@ -49,6 +49,9 @@ def cases(tier, seed):
     for pat, cs in ((("A",), (9,)), (("A", "A"), (10, 1)), (("A", "B"), (10, 0)), (("A", "A", "B"), (0, 10, 9)), (("A", "A", "B"), (11, 1, 0)), (("A", "A", "A"), (10, 9, 0))):
         for beta in (2, 0.5):
             out.append({"pattern": list(pat), "counts": list(cs), "outstanding": [True] * len(pat), "seed": seed, "beta": beta})
+        # the same model object serves another estimand first: the turnout intervals (checked against the reference above)
+        # must come out the same when turnout is the second estimand of the request
+        out.append({"pattern": list(pat), "counts": list(cs), "outstanding": [True] * len(pat), "seed": seed, "after_other_estimand": True})
     return out
 
 
@@ -229,7 +232,21 @@ def evaluate(case):
                         f"{tname} {key} alpha={alpha}: reported ({lo},{up}), but the {used} calibration set ({len(S)} units; own={len(own)}, state={len(state)}, all={n_cal}, threshold={thr}) gives ({elo:.1f},{eup:.1f})",
                     )
                 cov["group_intervals_recomputed"] += 1
+    if case.get("after_other_estimand"):
+        cfg2 = dict(cfg, estimands=["dem", "turnout"])
+        res2 = E.run_estimates(units, cfg2)
+        if "error" in res2:
+            viol("run-raised", f"estimands ['dem', 'turnout']: {res2['error']}")
+        else:
+            for tname, kc in (("state_data", ["postal_code"]), ("county_data", ["postal_code", "county_fips"])):
+                one = {tuple(r[c] for c in kc): r for r in E.tab_rows(res["ok"][tname])}
+                two = {tuple(r[c] for c in kc): r for r in E.tab_rows(res2["ok"][tname])}
+                for key, r in one.items():
+                    for col in [c for c in r if c.endswith("_turnout") and (c.startswith("lower_") or c.startswith("upper_"))]:
+                        if key not in two or two[key][col] != r[col]:
+                            viol(f"bounds-differ-when-second-estimand:{tname}", f"{tname} {key} {col}: {two.get(key, {}).get(col)} when turnout is requested after dem, {r[col]} (matching the calibration rule) when requested alone")
+                    cov["intervals_compared_as_second_estimand"] += 1
     return {"violations": V, "cov": dict(cov), "outcome": sha({k: v["rows"] for k, v in res["ok"].items() if k != "unit_data"})[:16], "nontrivial": fallback}
 
 
-REQUIRED_COUNTERS = {"group_intervals_recomputed": 500, "county_fips_uses_own": 50, "county_fips_uses_state": 50, "county_fips_uses_all": 50, "postal_code_uses_own": 50, "postal_code_uses_all": 20, "non_default_beta_runs": 10}
+REQUIRED_COUNTERS = {"group_intervals_recomputed": 500, "county_fips_uses_own": 50, "county_fips_uses_state": 50, "county_fips_uses_all": 50, "postal_code_uses_own": 50, "postal_code_uses_all": 20, "non_default_beta_runs": 10, "intervals_compared_as_second_estimand": 10}
